@@ -72,6 +72,14 @@ pub assume_specification[ String::truncate ](s: &mut String, new_len: usize)
 pub broadcast axiom fn axiom_ascii_suffix_one_byte(s: Seq<char>, c: char)
     requires #[trigger] is_suffix(seq![c], s), (c as u32) < 128,
     ensures encode_utf8(s.drop_last()).len() == encode_utf8(s).len() - 1;
+// <char as ToString>::to_string (through Display): "Converts the given value to a String." - the one character (ASSUMED; vstd leaves
+// `to_string_from_display_ensures` open for every type but str)
+pub broadcast axiom fn axiom_char_to_string(c: &char, r: String)
+    ensures #[trigger] vstd::string::to_string_from_display_ensures::<char>(c, r) ==> r@ == seq![*c];
+// String::from(&str) / `"..".into()`: "Converts a &str into a String. The result is allocated on the heap." - the same text (ASSUMED; vstd
+// specifies `Into::into` through `FromSpec`, which it leaves open for String)
+pub axiom fn axiom_string_from_str<'a>()
+    ensures <String as vstd::std_specs::convert::FromSpec<&'a str>>::obeys_from_spec(), forall|s: &'a str| (#[trigger] <String as vstd::std_specs::convert::FromSpec<&'a str>>::from_spec(s))@ == s@;
 // mem::drop: "Disposes of a value." (no effect on anything else)
 pub assume_specification<T>[ core::mem::drop::<T> ](x: T);
 // cmp::min / cmp::max: "Compares and returns the minimum/maximum of two values."
